@@ -2,6 +2,7 @@ package checks
 
 import (
 	"encoding/hex"
+	"runtime"
 
 	"github.com/Eyevinn/mp4ff/bits"
 )
@@ -9,3 +10,8 @@ import (
 func bitsSR(b []byte) bits.SliceReader { return bits.NewFixedSliceReader(b) }
 
 func hexDecode(s string) ([]byte, error) { return hex.DecodeString(s) }
+
+func stack() []byte {
+	buf := make([]byte, 16<<10)
+	return buf[:runtime.Stack(buf, false)]
+}
